@@ -138,6 +138,7 @@ def run_C03(tier, seed):
     a = stages.api_stage("C03", "batch", tier, seed, negative=neg, limit=1200 if Q(tier) else None)
     res = [a] + par(
         scaled, combination,
+        lambda: stages.api_stage("C03", "long", tier, seed),          # 21-40 members, many model chunks, mixed kinds, all modes
         # the orchestration with batch size, CHUNK SIZE, input lengths, validity and class of every member symbolic
         lambda: stages.apalache_stage("C03", "BatchUnbounded", "C03", 12, cinit="CInit", negative_cinits=("CInitLoopOnly", "CInitFirstChunk"),
                                       note="K in 0..10, chunk size in 1..10, the three input lengths, validity and bit-length class of every member are symbolic"))
@@ -413,6 +414,8 @@ def run_C09(tier, seed):
                                   and any(m["v"]["seed"] != 0 for m in s["sc"]["members"]), 14 if q else 120, prop="C09")
     res.append(stages.trace_stage("C09", "recovery-equation", sv, seed, module="TraceVerify", calls="verify"))
     # masks stay aligned and exact beyond the chunk limit
+    # batches of 21-40 members mixing aggregated, seeded (either seed, either side) and plain members: masks exact and aligned
+    res.append(stages.api_stage("C09", "long", tier, seed))
     big = stages.api_stage("C09", "batch", tier, seed, groups=("rist",), scale="2:256", scale_min=0, limit=40 if q else 400,
                            filter_fn=lambda s: s["sc"]["mode"] == "RecoverAndVerify" and s["expect"]["verify"] == "ok" and "exact" in s["expect"]["masks"])
     big.name = "api:batch@256"
@@ -433,6 +436,7 @@ def run_C10(tier, seed):
                                   and any(m["v"]["seed"] != 0 for m in s["sc"]["members"]), 10 if q else 100, prop="C10")
     res.append(stages.trace_stage("C10", "recover-only", ro, seed, module="TraceVerify", calls="verify"))
     # beyond the chunk limit: both recovering modes return the same, aligned masks (right seed, wrong seed, no seed in any order)
+    res.append(stages.api_stage("C10", "long", tier, seed))
     big = stages.api_stage("C10", "recover", tier, seed, groups=("rist",), scale="2:256", scale_min=0, limit=30 if q else 400,
                            filter_fn=lambda s: len(s["sc"]["members"]) >= 2 and s["sc"]["mode"] != "VerifyOnly" and s["expect"]["verify"] == "ok" and bool(s["sc"]["fill"]))
     big.name = "api:recover@256"
